@@ -2701,6 +2701,10 @@ class Evaluator:
         if f in (("builtin", "any"), ("builtin", "all")) and f[1] not in self.env and plain and len(args) == 1 and args[0][0] in ("tuple", "list") \
                 and 0 < len(args[0][1]) <= 8 and not any(x[0] == "star" for x in args[0][1]):
             return OR(*args[0][1]) if f[1] == "any" else AND(*args[0][1])
+        # S.isdisjoint({a, b}) is not (a in S or b in S)
+        if f[0] == "attr" and f[2] == "isdisjoint" and plain and len(args) == 1 and args[0][0] in ("set", "tuple", "list") \
+                and 0 < len(args[0][1]) <= 8 and not any(x[0] == "star" for x in args[0][1]):
+            return NOT(OR(*[mk_cmp("in", x, f[1]) for x in args[0][1]]))
         # itertools.filterfalse(p, xs) is (x for x in xs if not p(x))
         if f == ("ext", "itertools.filterfalse") and plain and len(args) == 2:
             lid = self.fresh("L")
@@ -3732,7 +3736,36 @@ class Evaluator:
             return fold_sub(("dict", tuple((e[1], e[2]) for e in out)))
         return ("tuple" if kind == "gen" else kind, tuple(out))
 
+    def _expand_product(self, n):
+        """`... for a, b in itertools.product(xs, ys)` is `... for a in xs for b in ys` (row-major; xs, ys plain names, so the
+        second one can be walked again for every element of the first)"""
+        if not any(isinstance(g.iter, ast.Call) and isinstance(g.target, (ast.Tuple, ast.List)) for g in n.generators):
+            return n
+        gens, changed = [], False
+        for g in n.generators:
+            it = g.iter
+            if isinstance(it, ast.Call) and not it.keywords and len(it.args) == 2 and isinstance(g.target, (ast.Tuple, ast.List)) and len(g.target.elts) == 2 \
+                    and not g.is_async and all(isinstance(a, (ast.Name, ast.Attribute)) for a in it.args) \
+                    and not any(isinstance(x, ast.Starred) for x in g.target.elts):
+                try:
+                    fv = self.ev(it.func, TRUE) if isinstance(it.func, (ast.Name, ast.Attribute)) else None
+                except AnalysisError:
+                    fv = None
+                if fv == ("ext", "itertools.product"):
+                    gens.append(ast.copy_location(ast.comprehension(target=g.target.elts[0], iter=it.args[0], ifs=[], is_async=0), g))
+                    gens.append(ast.copy_location(ast.comprehension(target=g.target.elts[1], iter=it.args[1], ifs=list(g.ifs), is_async=0), g))
+                    changed = True
+                    continue
+            gens.append(g)
+        if not changed:
+            return n
+        import copy
+        m = copy.copy(n)
+        m.generators = gens
+        return m
+
     def _comp(self, n, live, kind, elt_fn):
+        n = self._expand_product(n)
         un = self._comp_unrolled(n, live, kind, elt_fn)
         if un is not None:
             return un
